@@ -774,6 +774,24 @@ func PendingTimers() int {
 	return n
 }
 
+// PendingTimerNames describes the armed timers (diagnostics).
+func PendingTimerNames() []string {
+	var out []string
+	if S == nil {
+		return out
+	}
+	for _, t := range S.timers {
+		if t.live {
+			d := t.name
+			if t.g != nil {
+				d += " (sleep of " + t.g.String() + ")"
+			}
+			out = append(out, fmt.Sprintf("%s due in %v", d, time.Until(t.when)))
+		}
+	}
+	return out
+}
+
 // advance moves the fake clock to the earliest timer and fires everything due.
 func (s *Sched) advance() bool {
 	t := s.nextTimer()
